@@ -1,5 +1,6 @@
 """Statement execution, loops, function-level verification driver."""
 import ast
+import os
 import itertools
 import z3
 
@@ -59,6 +60,9 @@ class Verifier(Engine):
                 # keep what was generated so far: obligations that already fail are still reported,
                 # the function as a whole is undecided
                 fr.partial_error = str(ex)
+                if os.environ.get("PYVC_TRACE"):
+                    import traceback
+                    traceback.print_exc()
                 break
         fr.unused_anchors = [g.text for g in contract.ghosts
                              if g.where in ("after", "before") and id(g) not in fr.anchors_used]
@@ -91,6 +95,8 @@ class Verifier(Engine):
             ty = parse_type(ty or "any")
             if isinstance(ty, tuple) and ty[0] == "opt":
                 dims.append([(name, "none"), (name, ty[1])])
+            elif isinstance(ty, tuple) and ty[0] == "union":
+                dims.append([(name, alt) for alt in ty[1:]])
             elif ty == "file":
                 dims.append([(name, "file:bytesio"), (name, "file:osfile")])
             elif isinstance(ty, str) and ty.startswith("obj:") and any(
@@ -175,6 +181,10 @@ class Verifier(Engine):
         ac = fresh("aes_calls", I)
         st.env["aes_calls"] = VInt(ac)
         st.assume(ac >= 0)
+        if mentions_name(c, "rng_calls"):
+            rc = fresh("rng_calls", I)
+            st.env["rng_calls"] = VInt(rc)
+            st.assume(rc >= 0)
         for r in c.requires:
             st.assume(self.truth(st, self.ev1(r, st)))
         fr.canaries.append((f"{c.key}/canary:pre[{fr.case_label}]", list(st.pc)))
@@ -232,6 +242,10 @@ class Verifier(Engine):
                 have = cell.get(fld)
                 if have is None:
                     self.oblige(s, False, f"init-{fld}", "", info={"case": fr.case_label}, assume_after=False)
+                elif isinstance(have, VRef) and not isinstance(want, VRef) and isinstance(s.heap.get(have.ident), (VList, VSeq)):
+                    # a list-valued field against a value expression: compared by content
+                    self.oblige(s, self.eq_vals(s, self.deref(s, have), want), f"init-{fld}", "", info={"case": fr.case_label},
+                                assume_after=False)
                 elif isinstance(want, VRef) or isinstance(have, VRef):
                     same = isinstance(want, VRef) and isinstance(have, VRef) and want.ident == have.ident
                     self.oblige(s, same, f"init-{fld}", "", info={"case": fr.case_label}, assume_after=False)
@@ -410,6 +424,10 @@ class Verifier(Engine):
         if isinstance(e, (ast.Yield, ast.YieldFrom)):
             return self.ex_yield(e, st)
         if self.ghost_mode and isinstance(e, ast.Call) and isinstance(e.func, ast.Name) and e.func.id in ("assert_", "let", "when"):
+            self.exec_ghost_stmts(st, [e])
+            return [(st, None)]
+        if self.ghost_mode and isinstance(e, ast.Call) and isinstance(e.func, ast.Name) and e.func.id in self.cdb.lemmas:
+            # lemma call in a proof body: the arguments are specification terms
             self.exec_ghost_stmts(st, [e])
             return [(st, None)]
         return [(s, None) for s, _v in self.ev(e, st)]
@@ -591,6 +609,17 @@ class Verifier(Engine):
         while isinstance(test, ast.UnaryOp) and isinstance(test.op, ast.Not):
             test, neg = test.operand, not neg
         name = None
+        if isinstance(test, ast.Call) and isinstance(test.func, ast.Name) and test.func.id == "isinstance" and len(test.args) == 2 \
+                and isinstance(test.args[0], ast.Name) and isinstance(test.args[1], ast.Name) \
+                and isinstance(st.env.get(test.args[0].id), VAny) and truthy != neg:
+            # isinstance(x, bytes|str|int) holds in this branch: use the unboxed value
+            t = st.env[test.args[0].id].t
+            kind = test.args[1].id
+            if kind in ("bytes", "str"):
+                st.env[test.args[0].id] = VSeq(Val.byval(t) if kind == "bytes" else Val.strval(t), kind)
+            elif kind == "int":
+                st.env[test.args[0].id] = VAny(t)   # bool is an int too: keep the boxed value
+            return
         if isinstance(test, ast.Name):
             name, nonnull_when = test.id, True
         elif isinstance(test, ast.Compare) and len(test.ops) == 1 and isinstance(test.left, ast.Name) \
@@ -620,6 +649,7 @@ class Verifier(Engine):
         outs = []
         for s, c in self.ev(stmt.test, st):
             self.implicit_error(s, self.truth(s, c), "AssertionError", stmt, "assert")
+            self.narrow(stmt.test, s, True)
             outs.append((s, None))
         return outs
 
@@ -972,3 +1002,10 @@ def copy_load(node):
         if hasattr(x, "ctx"):
             x.ctx = ast.Load()
     return n
+
+
+def mentions_name(c, name):
+    exprs = list(c.requires) + list(c.ensures)
+    for ls in c.loops.values():
+        exprs += list(ls.invariants)
+    return any(isinstance(n, ast.Name) and n.id == name for e in exprs for n in ast.walk(e))
